@@ -246,6 +246,141 @@ def concrete_extrema(mod, seed, n=300):
     return ev, None
 
 
+def frame_scan():
+    """frame condition for the functions of pyyeti/cla: no hidden state between calls through a mutable default argument
+    (a default dict/list/set/call is created once at import and shared by every call that omits the argument)"""
+    import ast as _ast, glob as _glob
+    bad = []
+    nfn = 0
+    for f in sorted(_glob.glob(os.path.join(report.REPO, "pyyeti/cla/*.py"))):
+        for n in _ast.walk(_ast.parse(open(f).read())):
+            if isinstance(n, _ast.FunctionDef):
+                nfn += 1
+                for d in list(n.args.defaults) + [x for x in n.args.kw_defaults if x is not None]:
+                    if isinstance(d, (_ast.Dict, _ast.List, _ast.Set, _ast.ListComp, _ast.DictComp)) or (isinstance(d, _ast.Call) and getattr(d.func, "id", "") in ("dict", "list", "set")):
+                        bad.append("%s::%s(... = %s)" % (os.path.basename(f), n.name, _ast.unparse(d)))
+    return nfn, bad
+
+
+def apply_uf_nosave(seed):
+    """bounded float: consecutive module-level apply_uf calls WITHOUT a cache argument on different solutions give what cache-free calls give"""
+    sys.path.insert(0, report.REPO)
+    from pyyeti import cla
+    rng = np.random.RandomState(seed)
+    ev = 0
+    n, nt, nrb, rf = 5, 3, 1, np.array([4])
+    m = np.array([2.0, 1.0, 3.0, 1.5, 1.0]); b = np.array([0.0, 0.4, 0.6, 0.9, 0.2]); k = np.array([0.0, 90.0, 150.0, 400.0, 5000.0])
+    for it in range(4):
+        sol = SimpleNamespace(a=rng.randn(n, nt), v=rng.randn(n, nt), d=rng.randn(n, nt))
+        uf = (1.1 + 0.1 * it, 1.2, 1.3, 1.05)
+        out = cla.apply_uf(sol, uf, m, b, k, nrb, rf)
+        ev += 1
+        ruf, euf, duf, suf = uf
+        el = np.array([1, 2, 3])
+        F = m[:, None] * sol.a + b[:, None] * sol.v + k[:, None] * sol.d
+        d_el = euf * (suf * F[el] - duf * (m[el, None] * sol.a[el] + b[el, None] * sol.v[el])) / k[el, None]
+        want_d = sol.d.copy(); want_d[el] = d_el; want_d[4] = euf * suf * sol.d[4]; want_d[0] = out.d[0]
+        if not np.allclose(out.d[1:], want_d[1:], rtol=1e-10, atol=1e-12):
+            return ev, dict(what="apply_uf called repeatedly without a cache argument: the displacement of call #%d is not that of a cache-free call" % (it + 1),
+                            max_diff=float(abs(out.d[1:] - want_d[1:]).max()))
+    return ev, None
+
+
+def dr_results_bounded(seed, quick):
+    """bounded float: DR_Results bookkeeping over a two-level hierarchy of events with SRS - every level is the brute-force envelope of its parts, for both group
+    orders; forming the envelope does not modify the parts; an envelope over a subset equals the brute-force envelope of that subset"""
+    sys.path.insert(0, report.REPO)
+    from pyyeti import cla, srs
+    rng = np.random.RandomState(seed + 7)
+    nrows, h = 3, 0.002
+    t = np.arange(0, 0.3, h)
+    frq = np.arange(5.0, 50.0, 7.5)
+    Qs = (10, 25)
+    UF = (1, 1, 1, 1)
+    drdefs = cla.DR_Def(dict(se=0, uf_reds=UF, srsfrq=frq, srsQs=Qs))
+
+    @cla.DR_Def.addcat
+    def _():
+        name = "acc"
+        desc = "accelerations"
+        units = "g"
+        labels = ["Row %d" % i for i in range(nrows)]
+        drfunc = "sol.a"
+        histpv = "all"
+        srspv = "all"
+        drdefs.add(**locals())
+    DR = cla.DR_Event()
+    DR.add(None, drdefs)
+    ev = 0
+
+    def run_event(event, ncases, amp):
+        res = DR.prepare_results("verif", event)
+        resp = []
+        for j in range(ncases):
+            a = amp * (1 + 0.3 * j) * rng.randn(nrows, t.size)
+            sol = {UF: SimpleNamespace(a=a, v=a, d=a, t=t, h=h)}
+            res.time_data_recovery(sol, None, "%s case %d" % (event, j), DR, ncases, j)
+            resp.append(a.copy())
+        st = np.array(resp)
+        orc = dict(mx=st.max(axis=2).max(axis=0), mn=st.min(axis=2).min(axis=0), percase_mx=st.max(axis=2).T, percase_mn=st.min(axis=2).T,
+                   srs={q: np.max([srs.srs(r.T, 1 / h, frq, q).T for r in resp], axis=0) for q in Qs})
+        return res, orc
+
+    def env(os_):
+        return dict(mx=np.max([o["mx"] for o in os_], axis=0), mn=np.min([o["mn"] for o in os_], axis=0), srs={q: np.max([o["srs"][q] for o in os_], axis=0) for q in Qs})
+
+    def cmp_(where, cat, o):
+        if not (np.allclose(cat.ext[:, 0], o["mx"]) and np.allclose(cat.ext[:, 1], o["mn"])):
+            return "%s: max/min columns are not the envelope of the parts" % where
+        for q in Qs:
+            if not np.allclose(cat.srs.ext[q], o["srs"][q]):
+                return "%s: srs.ext[Q=%d] is not the envelope of the parts (up to %.3f x)" % (where, q, float(np.max(cat.srs.ext[q] / o["srs"][q])))
+        return None
+    for order in (["G1", "G2"], ["G2", "G1"]):
+        spec = {"G1": [("EvA", 3, 1.0), ("EvB", 2, 2.0)], "G2": [("EvC", 2, 4.0), ("EvD", 2, 3.0)]}
+        top = cla.DR_Results()
+        oev = {}
+        for g in order:
+            grp = cla.DR_Results()
+            rs = []
+            for e_, nc, amp in spec[g]:
+                r, o = run_event(e_, nc, amp)
+                oev[e_] = o
+                rs.append(r)
+            grp.merge(rs)
+            top[g] = grp
+        ogrp = {g: env([oev[e_] for e_, _, _ in spec[g]]) for g in spec}
+        otop = env(list(ogrp.values()))
+        for g in order:
+            for e_, _, _ in spec[g]:
+                ev += 1
+                c = top[g][e_]["acc"]
+                w = cmp_("%s/%s" % (g, e_), c, oev[e_])
+                if w is None and not (np.allclose(c.mx, oev[e_]["percase_mx"]) and np.allclose(c.mn, oev[e_]["percase_mn"])):
+                    w = "%s/%s: per-case max/min columns are not those of the cases in order" % (g, e_)
+                if w:
+                    return ev, dict(what=w)
+        top.form_extreme()
+        ev += 1
+        checks = [("top extreme", top["extreme"]["acc"], otop)] + [("%s extreme" % g, top[g]["extreme"]["acc"], ogrp[g]) for g in order] + \
+                 [("%s/%s after form_extreme (forming an envelope must not modify its parts)" % (g, e_), top[g][e_]["acc"], oev[e_]) for g in order for e_, _, _ in spec[g]]
+        for where, cat, o in checks:
+            w = cmp_(where, cat, o)
+            if w:
+                return ev, dict(what=w, group_order=order)
+        # envelope over a subset of the parts
+        g0 = order[0]
+        try:
+            top[g0].form_extreme(case_order=[spec[g0][1][0]])
+            ev += 1
+            w = cmp_("%s extreme over the subset [%s]" % (g0, spec[g0][1][0]), top[g0]["extreme"]["acc"], oev[spec[g0][1][0]])
+            if w:
+                return ev, dict(what=w)
+        except TypeError:
+            pass
+    return ev, None
+
+
 def run(tier, seed):
     run = report.Run(PID, tier, seed)
     run.trust("z3 (path feasibility and obligations, incl. the quantified envelope invariant over an abstract multiset)",
@@ -253,7 +388,7 @@ def run(tier, seed):
     run.assume("floats are reals + NaN (no infinities, no rounding)",
                "extrema is row-wise: proved for a generic single row (shape 1 x c); NumPy fancy indexing with the nonzero() row set acts per row",
                "labels are opaque; the multiset S of earlier cases is abstract (uninterpreted membership), so every history/order of earlier cases is covered by induction")
-    run.not_covered += ["DR_Results plumbing (pandas, reports, SRS envelopes, merge/form_extreme bookkeeping beyond the extrema kernel)",
+    run.not_covered += ["DR_Results plumbing (pandas, reports) deductively; merge/form_extreme/SRS envelopes are a bounded float check",
                         "apply_uf / uncertainty factors and cache reuse", "PSD-consistent RSS"]
     mod = alg.load_module(report.REPO, FILE)
     src = report.read_source(FILE)
@@ -288,6 +423,22 @@ def run(tier, seed):
                             scope="k/b (and m) diagonal or full in the elastic block, m None or given; symbolic values and factors", evaluations=un,
                             failures=len(ufails), label="bounded in size (never counted as proved)"))
     run.assume("scipy.linalg.lu_factor/lu_solve = exact inverse (assumed contract, shimmed by sympy) in the apply_uf check")
+    nfn, badfr = frame_scan()
+    run.add_verdicts([report.Verdict("frame::no function of pyyeti/cla keeps state between calls through a mutable default argument (%d functions scanned)" % nfn,
+                                     "failed" if badfr else "proved", "ast scan", 0.0, "frame", "pyyeti/cla", {"offending": badfr[:5]})])
+    vs.append(run.verdicts[-1])
+    ev3, cf3 = apply_uf_nosave(seed)
+    run.bounded.append(dict(name="float: consecutive apply_uf calls without a cache argument on different solutions", evaluations=ev3, failures=0 if cf3 is None else 1, label="bounded"))
+    try:
+        ev4, cf4 = dr_results_bounded(seed, tier == "quick")
+    except Exception as ex_:
+        import traceback as _tb
+        ev4, cf4 = 0, None
+        run.notes.append("DR_Results bounded check could not run: %r %s" % (ex_, _tb.format_exc()[-300:]))
+    run.bounded.append(dict(name="float: DR_Results two-level hierarchy (4 events, 2 groups, SRS with two Qs, both group orders): every level is the brute-force envelope of its parts, per-case "
+                                 "columns in case order, parts unchanged by form_extreme, subset envelope", evaluations=ev4, failures=0 if cf4 is None else 1, label="bounded"))
+    if cf is None:
+        cf = cf3 or cf4
     failed = [v for v in vs if v.status == "failed"]
     if not failed and cf is None and ufails:
         run.violation("bounded:apply_uf:" + json.dumps(ufails[0]["case"]), "apply_uf result differs from the documented formulas: %s" % ufails[0]["quantity"],
@@ -296,7 +447,7 @@ def run(tier, seed):
         run.violation(failed[0].name, "obligation(s) failed: " + ", ".join(v.name for v in failed[:5]),
                       dict(failed=[v.as_dict() for v in failed[:10]], concrete=cf), concrete=cf is not None)
     elif cf is not None:
-        run.violation("bounded:extrema-history", cf["what"], dict(concrete=cf), concrete=True)
+        run.violation("bounded:" + cf["what"][:70], cf["what"], dict(concrete=cf), concrete=True)
     return run.finish()
 
 
